@@ -7,7 +7,7 @@ cid, flt = sys.argv[1], sys.argv[2]
 rest = sys.argv[3:]
 tmp = tempfile.mkdtemp(prefix="mutdev.")
 try:
-    subprocess.check_call(["rsync", "-a", "--exclude", ".git", "--exclude", "__pycache__", "/repo/", tmp + "/"])
+    subprocess.check_call(["rsync", "-a", "--exclude", ".git", "--exclude", "__pycache__", os.environ.get("MUTDEV_BASE", "/repo") + "/", tmp + "/"])
     i = 0
     while i < len(rest):
         if rest[i] == "--patch":
